@@ -228,7 +228,33 @@ func checkC01(c C01Case, o *Obs) error {
 	if err != nil {
 		return err
 	}
-	return compareFasta(got, c.Recs, seqs)
+	if err := compareFasta(got, c.Recs, seqs); err != nil {
+		return err
+	}
+	// A consumer owns the records it received: modifying them in place while iterating must
+	// not affect the records that follow.
+	i := 0
+	for fa, err := range fasta.Reader(bytes.NewReader(all.Bytes())) {
+		if err != nil || i >= len(c.Recs) {
+			return fmt.Errorf("second pass: item %d: unexpected item (error %v)", i, err)
+		}
+		if err := compareFasta([]*fasta.Fasta{fa}, c.Recs[i:i+1], seqs[i:i+1]); err != nil {
+			return fmt.Errorf("after the consumer modified the records it received earlier in the same pass: record %d: %v", i, err)
+		}
+		for j := range fa.Name {
+			fa.Name[j] ^= 0x5a
+		}
+		for j := range fa.Sequence {
+			fa.Sequence[j] ^= 0x5a
+		}
+		fa.Name = append(fa.Name, "scribble"...)
+		fa.Sequence = append(fa.Sequence, "scribble"...)
+		i++
+	}
+	if i != len(c.Recs) {
+		return fmt.Errorf("second pass yields %d records, want %d", i, len(c.Recs))
+	}
+	return nil
 }
 
 // fastaShape checks the written form: '>'+name line, then lines of 1..80 bytes that
